@@ -3,7 +3,7 @@
 PATCH=$1; shift
 cd /repo && git apply $PATCH || { echo "patch does not apply"; exit 2; }
 cd /verif
-export VERIF_EVIDENCE_DIR=/tmp/seed-evidence VERIF_REPLAY_DIR=/tmp/seed-replays
+export VERIF_EVIDENCE_DIR=/tmp/own-evidence VERIF_REPLAY_DIR=/tmp/own-replays
 for p in "$@"; do
   out=$(timeout 1500 ./check $p 2>&1 | grep -E "VIOLATION|KNOWN-FINDING|Traceback" | head -3 | cut -c1-200)
   echo "$p exit=$? :: $out"
